@@ -520,3 +520,118 @@ def one_assign_in(fn, name, which):
     if not a:
         raise TranslateError(f"{fn.name}: no assignment to {name}")
     return a[which].value
+
+
+# ------------------------------------------------------------------------------------------
+# C04 / C01 / C14  fitting.elliptical_gaussian, fitting.jacobian, covar_errors
+from trcore import block_lets, lets_text  # noqa: E402
+
+GARGS = 'x y amp xo yo sx sy theta'
+PARAMS = ['amp', 'xo', 'yo', 'sx', 'sy', 'theta']
+
+
+def _gauss_body(fn):
+    """elliptical_gaussian: the try/except around sin/cos only guards a math domain error"""
+    body = strip_doc(fn.body)
+    out = []
+    for st in body:
+        if isinstance(st, ast.Try):
+            if len(st.body) != 1 or st.orelse or st.finalbody:
+                raise TranslateError("elliptical_gaussian: try block")
+            for h in st.handlers:
+                for n in ast.walk(h):
+                    if isinstance(n, ast.Assign) and src(n.value) != '(np.nan, np.nan)':
+                        raise TranslateError("elliptical_gaussian: except branch assigns something other than nan")
+            out.extend(st.body)
+        else:
+            out.append(st)
+    return out
+
+
+@point('Gauss')
+def gen_gauss(repo):
+    tree = parse_file(_p(repo, 'fitting.py'))
+    eg = find_func(tree, 'elliptical_gaussian')
+    if [a.arg for a in eg.args.args] != GARGS.split():
+        raise TranslateError("elliptical_gaussian: signature")
+    tr = Tr('R', {a: a for a in GARGS.split()})
+    stmts = _gauss_body(eg)
+    lets, rest = block_lets(stmts, tr)
+    if len(rest) != 1 or not isinstance(rest[0], ast.Return):
+        raise TranslateError(f"elliptical_gaussian: unexpected statement {src(rest[0])[:60] if rest else 'no return'}")
+    gauss = lets_text(lets, tr.expr(rest[0].value))
+    # ---- jacobian
+    jf = find_func(tree, 'jacobian')
+    loops = [n for n in jf.body if isinstance(n, ast.For)]
+    if len(loops) != 1 or src(loops[0].iter) != "range(int(pars['components'].value))":
+        raise TranslateError("jacobian: component loop")
+    if src(jf.body[-1]) != 'return np.array(matrix)':
+        raise TranslateError("jacobian: return")
+    body = loops[0].body
+    env = {a: a for a in GARGS.split()}
+    k = 0
+    if src(body[0]) != "prefix = 'c{0}_'.format(i)":
+        raise TranslateError("jacobian: prefix")
+    k = 1
+    for p in PARAMS:
+        if src(body[k]) != f"{p} = pars[prefix + '{p}'].value":
+            raise TranslateError(f"jacobian: parameter read {src(body[k])}")
+        k += 1
+    tr = Tr('R', env)
+    tr.env['elliptical_gaussian(x, y, amp, xo, yo, sx, sy, theta)'] = f'(gauss {GARGS})'
+    pre, rest = block_lets(body[k:], tr)
+    order, defs = [], []
+    for st in rest:
+        if not (isinstance(st, ast.If) and not st.orelse):
+            raise TranslateError(f"jacobian: unexpected statement {src(st)[:60]}")
+        t = src(st.test)
+        ps = [p for p in PARAMS if t == f"pars[prefix + '{p}'].vary"]
+        if len(ps) != 1:
+            raise TranslateError(f"jacobian: condition {t}")
+        p = ps[0]
+        tr2 = Tr('R', dict(tr.env))
+        lets, tail = block_lets(st.body, tr2)
+        if len(tail) != 1 or not (isinstance(tail[0], ast.Expr) and isinstance(tail[0].value, ast.Call)
+                                  and src(tail[0].value.func) == 'matrix.append' and len(tail[0].value.args) == 1):
+            raise TranslateError(f"jacobian: block of {p} does not end in matrix.append")
+        res = tr2.expr(tail[0].value.args[0])
+        order.append(p)
+        defs.append(f"Definition d_{p} ({GARGS} : R) : R :=\n" + lets_text(pre + lets, res) + ".\n")
+    if sorted(order) != sorted(PARAMS):
+        raise TranslateError(f"jacobian: parameters with a derivative block: {order}")
+    # ---- covar_errors: assignment loop
+    ce = find_func(tree, 'covar_errors')
+    jz = [(i, st) for i, st in enumerate(ce.body) if src(st) == 'j = 0']
+    loops = [(i, st) for i, st in enumerate(ce.body) if isinstance(st, ast.For)]
+    inner_reset = any(src(n) == 'j = 0' for n in ast.walk(loops[-1][1]) if isinstance(n, ast.Assign)) if loops else False
+    if not loops or src(loops[-1][1].iter) != "range(int(params['components'].value))":
+        raise TranslateError("covar_errors: component loop")
+    lp = loops[-1][1]
+    inner = [n for n in lp.body if isinstance(n, ast.For)]
+    if len(inner) != 1:
+        raise TranslateError("covar_errors: parameter loop")
+    plist = ast.literal_eval(inner[0].iter)
+    ifs = inner[0].body
+    if not (len(ifs) == 1 and isinstance(ifs[0], ast.If) and src(ifs[0].test) == 'params[prefix + p].vary'
+            and [src(s) for s in ifs[0].body] == ['params[prefix + p].stderr = onesigma[j]', 'j += 1']):
+        raise TranslateError("covar_errors: assignment body")
+    if not inner_reset and not (jz and jz[-1][0] < loops[-1][0]):
+        raise TranslateError("covar_errors: j is not initialised before the loop")
+    idx = {p: i for i, p in enumerate(PARAMS)}
+    return HEADER_R + f"""From Coq Require Import List.
+Import ListNotations.
+
+(* fitting.elliptical_gaussian *)
+Definition gauss ({GARGS} : R) : R :=
+{gauss}.
+
+(* fitting.jacobian: one definition per `if pars[prefix+'<p>'].vary` block *)
+{''.join(defs)}
+(* parameters are numbered amp=0 xo=1 yo=2 sx=3 sy=4 theta=5 *)
+(* textual order of the blocks in jacobian = order of the rows *)
+Definition jacobian_order : list nat := [{'; '.join(str(idx[p]) for p in order)}]%nat.
+(* order in which covar_errors hands out the entries of onesigma *)
+Definition stderr_order : list nat := [{'; '.join(str(idx[p]) for p in plist)}]%nat.
+(* does covar_errors restart its index for every component? *)
+Definition stderr_index_restarts : bool := {'true' if inner_reset else 'false'}.
+"""
